@@ -787,7 +787,7 @@ theorem static_op_table :
     setitemAlwaysRaises = true ∧ imulRefusesZero = true ∧
     idivGuards = ["val == 0", "int(self.t0) % val", "int(self.sampling_interval) % val"] ∧
     iaddOrder = ["_convert_and_check_uniformity", "_refuse_collapse", "read-shift", "numpy-op", "_set_sampling"] ∧
-    isubOrder = iaddOrder ∧ oneElementIsShift = true ∧ lookupBothOrientations = true := by decide
+    isubOrder = iaddOrder ∧ oneElementIsShift = true ∧ lookupBothOrientations = true ∧ sliceCopies = true := by decide
 
 /-! ### non-vacuity -/
 /-- a concrete history through every kind of operation (ms axis, t0 = 1 ms, Δ = 2 ms, n = 4) -/
